@@ -207,6 +207,51 @@ pub fn replay(args: &[String]) {
 
 // ---------------------------------------------------------------- slot typing
 
+/// an upgraded handle (Prop<T, true>) the client keeps across later operations
+trait HeldHandle {
+    /// Ok(value id) / Err(()) if the call panicked
+    fn set3(&mut self) -> Result<(), ()>;
+    /// the value ids (1 = configured, 2, 3 = written, 4 = configured later) that denote the value read; several for bool
+    fn get_ids(&self) -> Result<Vec<u64>, ()>;
+}
+struct Held<T: des_net_utils::props::PropType> {
+    h: des_net_utils::props::Prop<T, true>,
+    vals: [T; 4], // conf (1), w2 (2), w3 (3), conf2 (4)
+}
+impl<T: des_net_utils::props::PropType + Clone + PartialEq> HeldHandle for Held<T> {
+    fn set3(&mut self) -> Result<(), ()> {
+        let w = self.vals[2].clone();
+        catch_unwind(AssertUnwindSafe(|| self.h.set(w))).map_err(|_| ())
+    }
+    fn get_ids(&self) -> Result<Vec<u64>, ()> {
+        let v = catch_unwind(AssertUnwindSafe(|| self.h.get())).map_err(|_| ())?;
+        Ok(self.vals.iter().enumerate().filter(|(_, x)| **x == v).map(|(i, _)| i as u64 + 1).collect())
+    }
+}
+
+fn hold_step<T>(props: &mut Props, e: &Value, conf: T, w2: T, w3: T, conf2: T) -> Result<Option<Box<dyn HeldHandle>>, Value>
+where
+    T: des_net_utils::props::PropType + Clone + PartialEq + std::fmt::Debug + 'static,
+{
+    let want_ok = e["res"] == "ok";
+    let r = catch_unwind(AssertUnwindSafe(|| props.get::<T>("k")));
+    let Ok(r) = r else { return Err(json!({"field": "typed access panicked"})) };
+    match (r, want_ok) {
+        (Ok(h), true) => {
+            let h = h.or(w2.clone());
+            let held = Held { h, vals: [conf, w2, w3, conf2] };
+            let got = held.get_ids().map_err(|_| json!({"field": "reading through a fresh upgraded handle panicked"}))?;
+            if !got.contains(&e["val"].as_u64().unwrap()) {
+                return Err(json!({"field": "value seen through a fresh upgraded handle", "expected": e["val"], "got": got}));
+            }
+            Ok(Some(Box::new(held)))
+        }
+        (Err(_), false) => Ok(None),
+        (Ok(_), false) => Err(json!({"field": "handle of a different type was granted"})),
+        (Err(e2), true) => Err(json!({"field": "handle at the slot's own type was refused", "err": e2.to_string()})),
+    }
+}
+
 fn slot_step<T>(props: &mut Props, e: &Value, conf: T, w2: T, w3: T, conf2: T) -> Result<(), Value>
 where
     T: des_net_utils::props::PropType + Clone + PartialEq + std::fmt::Debug,
@@ -268,8 +313,44 @@ fn replay_slot(beh: &[Value]) -> Result<u64, Value> {
         props.set("k".into(), y);
     }
     let mut checks = 0;
+    let mut held: Option<Box<dyn HeldHandle>> = None;
     for (i, e) in beh.iter().enumerate().skip(1) {
         let r = match (e["op"].as_str().unwrap(), e["ty"].as_str().unwrap()) {
+            ("hold", ty) => {
+                let h = match ty {
+                    "u32" => hold_step::<u32>(&mut props, e, 7, 2, 3, 9),
+                    "i64" => hold_step::<i64>(&mut props, e, 7, 2, 3, 9),
+                    "string" => hold_step::<String>(&mut props, e, "seven".into(), "two".into(), "three".into(), "nine".into()),
+                    "bool" => hold_step::<bool>(&mut props, e, true, true, false, true),
+                    _ => hold_step::<f32>(&mut props, e, 7.0, 2.0, 3.0, 9.0),
+                };
+                match h {
+                    Ok(Some(x)) => {
+                        held = Some(x);
+                        Ok(())
+                    }
+                    Ok(None) => Ok(()),
+                    Err(m) => Err(m),
+                }
+            }
+            ("held_set", _) => {
+                let got = held.as_mut().expect("spec uses a handle it never obtained").set3();
+                match (got.is_ok(), e["res"] == "ok") {
+                    (true, true) | (false, false) => Ok(()),
+                    (true, false) => Err(json!({"field": "set through a stale handle of another type overwrote the property instead of failing"})),
+                    (false, true) => Err(json!({"field": "set through a valid kept handle panicked"})),
+                }
+            }
+            ("held_get", _) => {
+                let got = held.as_ref().expect("spec uses a handle it never obtained").get_ids();
+                match (got, e["res"] == "ok") {
+                    (Ok(v), true) if v.contains(&e["val"].as_u64().unwrap()) => Ok(()),
+                    (Ok(v), true) => Err(json!({"field": "value read through a kept handle", "expected": e["val"], "got": v})),
+                    (Err(()), false) => Ok(()),
+                    (Ok(v), false) => Err(json!({"field": "read through a stale handle of another type returned a value (reinterpretation)", "got": v})),
+                    (Err(()), true) => Err(json!({"field": "read through a valid kept handle panicked"})),
+                }
+            }
             ("clear", _) => {
                 props.get_raw("k").clear();
                 Ok(())
